@@ -10,7 +10,27 @@ let int_of_n = function N0 -> 0 | Npos p -> int_of_pos p
 let z_of_int i = if i = 0 then Z0 else if i > 0 then Zpos (pos_of_int i) else Zneg (pos_of_int (-i))
 (* i64::MIN does not negate in OCaml's 63-bit ints: scripts give it as the token "i64min" *)
 let z_i64min = Zneg (let rec p k = if k = 0 then XH else XO (p (k - 1)) in p 63)
-let z_of_string s = if s = "i64min" then z_i64min else if s = "u64max" then Zpos (let rec p k = if k = 0 then XH else XI (p (k - 1)) in p 63) else z_of_int (int_of_string s)
+(* decimal strings of any size -> Z, by repeated halving of the digit list *)
+let z_of_string s =
+  if s = "i64min" then z_i64min else
+  let s = if s = "u64max" then "18446744073709551615" else s in
+  let neg = String.length s > 0 && s.[0] = '-' in
+  let digits = List.init (String.length s - (if neg then 1 else 0)) (fun i -> Char.code s.[i + (if neg then 1 else 0)] - 48) in
+  let rec halve ds carry acc = match ds with
+    | [] -> (List.rev acc, carry)
+    | d :: r -> let v = carry * 10 + d in halve r (v mod 2) ((v / 2) :: acc) in
+  let rec strip = function 0 :: r -> strip r | l -> l in
+  let rec bits ds = match strip ds with
+    | [] -> []
+    | ds -> let (q, r) = halve ds 0 [] in r :: bits q in
+  let rec pos_of_bits = function
+    | [] -> None
+    | b :: r -> (match pos_of_bits r with
+        | None -> if b = 1 then Some XH else None
+        | Some p -> Some (if b = 1 then XI p else XO p)) in
+  match pos_of_bits (bits digits) with
+  | None -> Z0
+  | Some p -> if neg then Zneg p else Zpos p
 
 let prime = 2147483647
 let hash_bytes (l : int list) = List.fold_left (fun h b -> (h * 1000003 + b + 1) mod prime) (List.length l) l
@@ -104,7 +124,7 @@ let rec parse_op (t : string list) : op =
   | ["read"; f; n] -> Read (h f, n_of_int (int_of_string n))
   | ["write"; f; len; seed] -> Write (h f, pattern (int_of_string len) (int_of_string seed))
   | ["seekstart"; f; x] -> SeekStart (h f, n_of_int (int_of_string x))
-  | ["seekcur"; f; x] -> SeekCur (h f, z_of_int (int_of_string x))
+  | ["seekcur"; f; x] -> SeekCur (h f, z_of_string x)
   | ["seekend"; f; x] -> SeekEnd (h f, n_of_int (int_of_string x))
   | ["len"; f] -> Length (h f) | ["off"; f] -> Offset (h f) | ["eof"; f] -> Eof (h f)
   | ["delete"; d; nm] -> Delete (h d, name_of_hex nm)
